@@ -54,7 +54,7 @@ def required(tier):
     cl += [f'layout:{x}' for x in ('single', 'assoc1', 'assoc2', 'mapped', 'mem-save')]
     cl += ['phase:same-session-evicted', 'phase:reopen-read', 'phase:reopen-append',
            'phase:after-sync', 'across:subset-later', 'across:uniform', 'phase:append-one-more',
-           'field-set-order:shuffled']
+           'field-set-order:shuffled', 'field-set:defined-again-in-another-field-order']
     return {'classes': cl, 'counters': {'trajectories_compared': 300}, 'evaluations': 300}
 
 
@@ -255,6 +255,13 @@ def one_store(rng, workdir: Path, rec, k):
                 st.close()
         # ---- append session: read an old item, then add one more trajectory ----------------
         if layout != 'mapped':
+            if extras and rng.random() < 0.3:
+                # the appending program is "another version": its field sets list the same
+                # fields in another order; every value must still land under its own name
+                if any([vf.reregister_reordered(n, rng) for n in extras]):
+                    extra_t = build(ntraj)
+                    cache_mb = max(cache_mb, extra_t.nbytes * 1.5 / (1024 * 1024))
+                    rec.cls('field-set:defined-again-in-another-field-order')
             extra_snap = trajgen.snapshot(extra_t)
             st = TrajectoryStore.append(base_file=base, associated_files=list(assoc_paths) or None,
                                         cache_size_mb=cache_mb)
@@ -281,6 +288,7 @@ def one_store(rng, workdir: Path, rec, k):
         if shuffle_order:
             rec.cls('field-set-order:shuffled')
     finally:
+        vf.restore_registered_order()
         shutil.rmtree(d, ignore_errors=True)
     rec.cls(f'layout:{layout}', f'species:{shape}', f'across:{across}',
             'fieldsets:' + ('+'.join(x[3:] for x in extras) or 'base-only'),
